@@ -14255,6 +14255,8 @@ gcry_error_t CallasDonnerhackeFinneyShawThayerRFC4880::SymmetricEncryptAEAD
 	}
 	if (verbose > 2)
 		std::cerr << std::dec << std::endl;
+	unsigned char ivstart[16];
+	memcpy(ivstart, ivbuf, sizeof(ivstart)); // keep the initial nonce
 	if (ad.size() == 4) // identifies an AEAD-encrypted SKESK packet (version 5)
 	{
 		ret = gcry_cipher_setiv(hd, ivbuf, is);
@@ -14384,6 +14386,7 @@ gcry_error_t CallasDonnerhackeFinneyShawThayerRFC4880::SymmetricEncryptAEAD
 				std::cerr << "INFO: SymmetricEncryptAEAD on chunk #" <<
 					chunkidx << " with nbytes = " << nbytes << std::endl;
 			}
+			memcpy(ivbuf, ivstart, sizeof(ivbuf)); // start from the initial nonce
 			switch (aeadalgo)
 			{
 				// The nonce for EAX mode is computed by treating the starting
@@ -14507,6 +14510,7 @@ gcry_error_t CallasDonnerhackeFinneyShawThayerRFC4880::SymmetricEncryptAEAD
 			std::cerr << "INFO: SymmetricEncryptAEAD on final chunk #" <<
 				chunkidx << " with nbytes = " << nbytes << std::endl;
 		}
+		memcpy(ivbuf, ivstart, sizeof(ivbuf)); // start from the initial nonce
 		switch (aeadalgo)
 		{
 			case TMCG_OPENPGP_AEADALGO_EAX:
@@ -14639,6 +14643,7 @@ gcry_error_t CallasDonnerhackeFinneyShawThayerRFC4880::SymmetricEncryptAEAD
 				totalbytes << std::endl;
 		}
 		chunkidx++;
+		memcpy(ivbuf, ivstart, sizeof(ivbuf)); // start from the initial nonce
 		switch (aeadalgo)
 		{
 			case TMCG_OPENPGP_AEADALGO_EAX:
@@ -15065,6 +15070,8 @@ gcry_error_t CallasDonnerhackeFinneyShawThayerRFC4880::SymmetricDecryptAEAD
 	}
 	if (verbose > 2)
 		std::cerr << std::dec << std::endl;
+	unsigned char ivstart[16];
+	memcpy(ivstart, ivbuf, sizeof(ivstart)); // keep the initial nonce
 	if (ad.size() == 4) // identifies an AEAD-encrypted SKESK packet (version 5)
 	{
 		ret = gcry_cipher_setiv(hd, ivbuf, is);
@@ -15179,6 +15186,7 @@ gcry_error_t CallasDonnerhackeFinneyShawThayerRFC4880::SymmetricDecryptAEAD
 				std::cerr << "INFO: SymmetricDecryptAEAD on chunk #" <<
 					chunkidx << " with nbytes = " << nbytes << std::endl;
 			}
+			memcpy(ivbuf, ivstart, sizeof(ivbuf)); // start from the initial nonce
 			switch (aeadalgo)
 			{
 				// The nonce for EAX mode is computed by treating the starting
@@ -15274,6 +15282,7 @@ gcry_error_t CallasDonnerhackeFinneyShawThayerRFC4880::SymmetricDecryptAEAD
 			std::cerr << "INFO: SymmetricDecryptAEAD on final chunk #" <<
 				chunkidx << " with nbytes = " << nbytes << std::endl;
 		}
+		memcpy(ivbuf, ivstart, sizeof(ivbuf)); // start from the initial nonce
 		switch (aeadalgo)
 		{
 			case TMCG_OPENPGP_AEADALGO_EAX:
@@ -15393,6 +15402,7 @@ gcry_error_t CallasDonnerhackeFinneyShawThayerRFC4880::SymmetricDecryptAEAD
 				totalbytes << std::endl;
 		}
 		chunkidx++;
+		memcpy(ivbuf, ivstart, sizeof(ivbuf)); // start from the initial nonce
 		switch (aeadalgo)
 		{
 			case TMCG_OPENPGP_AEADALGO_EAX:
